@@ -1,7 +1,10 @@
 """C10 - running an accepted test never panics; runtime problems are error items.
 
-Part 1 (this file, kernels with dedicated replay templates): arithmetic, random, signExt, unknown variable,
-loop counter.  Part 2 (audit.py): every other panic site of the run-time modules.
+Kernels with dedicated replay templates: arithmetic, random, signExt, unknown variable, loop counter; the row
+expansion on the get_row harness; the frame discipline behind the counter read-back.  A general audit of every other
+panic site of the run-time modules (from arbitrary states, with an assumed-unreachable list) was planned and is NOT
+built: exploring each run-time function in isolation blew up (40 min / 12 GB in a probe) - such sites are covered only
+where one of the obligations above or a harness of another property executes them.
 """
 import z3
 
@@ -10,7 +13,6 @@ from ..sym import bv64
 from .common import initial, mval, s64, no_panic_judge
 from ..replay import Scenario, lit
 from . import C08
-from .audit import run_audit
 
 
 def item_judge(expect_err=True, what="expression"):
@@ -259,14 +261,6 @@ def loop_counter(O):
         # the counter exists and is a number (frame discipline: argued in DESIGN.md) - what remains is arithmetic
         O.fail_path(p, "loop counter update panics: %s" % p.detail,
                     lambda mod: {"site": "EndIterateInner", "panic": p.detail[:60]}, sc, judge, extra=cls + [some_val])
-
-
-@obligation("C10/audit", profiles=("dev",),
-            desc="panic-site audit of the run-time modules: every panic site is unreachable from an arbitrary state of "
-                 "its function, or reproduces through the public API (violation), or is on the committed "
-                 "assumed-unreachable list with the cross-function invariant that protects it")
-def audit(O):
-    run_audit(O, "C10")
 
 
 @obligation("C10/expansion-no-panic", profiles=("dev",),
